@@ -30,7 +30,7 @@ type loP struct {
 	Dest      string // "" advertised | absent | foreign
 	Prefix    string // "" std | default | odd
 	Decl      string
-	Lookup    string // GetEntityByID fault: "" | error
+	Lookup    string // GetEntityByID fault: "" | error | error-ctx-deadline | error-ctx-canceled
 }
 
 var loSLOLists = map[string][]msg.SLO{
@@ -95,8 +95,12 @@ func loBuild(p loP) (*world.World, *http.Request, *loTruth) {
 	if _, err := w.Store.RegisterSP("app-c", loSPC().XML()); err != nil {
 		panic(err)
 	}
-	if p.Lookup == "error" {
-		w.Store.FaultAt("GetEntityByID", 1, world.FaultError)
+	if p.Lookup != "" {
+		kind, ok := map[string]string{"error": world.FaultError, "error-ctx-deadline": world.FaultCtxDeadline, "error-ctx-canceled": world.FaultCtxCanceled}[p.Lookup]
+		if !ok {
+			panic("loBuild: Lookup " + p.Lookup)
+		}
+		w.Store.FaultAt("GetEntityByID", 1, kind)
 		t.IssuerRegistered = false
 	}
 	o := msg.LogoutOpts{ID: "_lo-91c2", Issuer: a.EntityID}
@@ -119,7 +123,7 @@ func loBuild(p loP) (*world.World, *http.Request, *loTruth) {
 	if p.Issuer != "" && p.Issuer != "b" && p.Issuer != "c" {
 		t.Conformant = false
 	}
-	if p.Lookup == "error" {
+	if p.Lookup != "" {
 		t.ExpectTarget = ""
 	}
 	switch p.ID {
